@@ -448,6 +448,16 @@ def check_routes(ctx, rng, fe, variant=0):
                 the_app.route(p)(lambda n, a, reply, c: None)
             else:
                 the_app.route(p)(lambda n, pr, a: None)
+        if fe == 'v2' and variant % 4 == 1 and prefixes:
+            # before connecting, the application changes its mind about a route (detaches the handler, declares the route again with
+            # another one) and declares one route a second time by mistake (refused): still ONE registration per route and connection
+            the_app.detach_handler(prefixes[0])
+            the_app.route(prefixes[0])(lambda n, a, reply, c: None)
+            try:
+                the_app.route(prefixes[-1])(lambda n, a, reply, c: None)
+            except ValueError:
+                pass
+            ctx.event('route-declared-again-before-connecting')
         # a handler merely attached (no route(), no register()) is no request for a route: nothing is sent for its prefix
         if fe == 'v2':
             the_app.attach_handler([C(b'only'), C(b'attached')], lambda n, a, reply, c: None)
@@ -780,5 +790,6 @@ def run(ctx):
     ctx.need_event('exchange-under-a-coarse-clock')
     ctx.need_event('prefix-given-as-a-one-shot-iterator')
     ctx.need_event('session-2-under-its-own-event-loop')
+    ctx.need_event('route-declared-again-before-connecting')
     ctx.assumptions = ['a 200 reply whose signature is bad counts as success in the current front-end (its commands use pass_all) and as failure in the legacy one',
                        'jitter clock: non-decreasing, 0..0.6 ms per reading (a legal wall clock); coarse clock: advances in steps of 1/64 s']
